@@ -315,12 +315,23 @@ static void gen_case(long idx)
 	}
 	case 15: { /* header alg differs from key / unknown but well formed */
 		static const char *ALGS[] = { "none", "HS256", "HS384", "RS256", "ES256", "ES384", "EdDSA", "PS256", "ES256K", "HS512" };
-		char hdr[6000];
+		char hdr[9000];
 		if (!det && vh_below(&rng, 4) == 0) {
 			/* unknown alg names of many lengths (they end up in an error message of bounded size) */
 			static const int LEN[] = { 3, 100, 200, 230, 238, 239, 240, 241, 242, 250, 254, 255, 256, 257, 300, 1000, 5000 };
 			int n = LEN[vh_below(&rng, 17)], o = sprintf(hdr, "{\"alg\":\"");
+			if (vh_below(&rng, 3) == 0 && n <= 1000) {
+				/* the same lengths made of control characters (JSON escapes), alone or after printable text: whatever an error path does to
+				 * make such a name presentable (escaping, hex dumps) multiplies its size */
+				static const char *CE[] = { "\\n", "\\u001b", "\\t", "\\u0001", "\\r", "\\u007f", "\\b", "\\u0085" };
+				const char *e = CE[vh_below(&rng, 8)];
+				int pre = vh_below(&rng, 2) ? 0 : n / 2;
+				memset(hdr + o, 'Q', (size_t)pre); o += pre;
+				for (int i = pre; i < n; i++) { strcpy(hdr + o, e); o += (int)strlen(e); }
+				strcpy(hdr + o, "\"}");
+			} else {
 			memset(hdr + o, "AZx%"[vh_below(&rng, 4)], (size_t)n); strcpy(hdr + o + n, "\"}");
+			}
 		} else if (det || vh_below(&rng, 3) == 0) {
 			/* a known name followed by filler: unknown names that an implementation folding or narrowing a length (mod 256, mod 65536 does
 			 * not fit a header here) would take for the known one */
